@@ -2,6 +2,7 @@ package main
 
 import (
 	"fmt"
+	"go/types"
 	"sort"
 	"strings"
 
@@ -265,7 +266,7 @@ var loopSpecs = []loopSpec{
 type closureSpec struct {
 	fn    string // closure key, e.g. keeper.Keeper.ResetAssetAndValidators$1
 	via   []string
-	store []string // alternatively: stores into these captured variables count as the effect
+	store bool // alternatively: stores into captured variables (other than the error variable) count as the effect
 	props []string
 	what  string
 }
@@ -273,7 +274,7 @@ type closureSpec struct {
 var closureSpecs = []closureSpec{
 	{fn: "keeper.Keeper.ResetAssetAndValidators$1", via: []string{"keeper.Keeper.SetValidatorInfo"}, props: []string{"C03"}, what: "every validator is stripped of the denom"},
 	{fn: "keeper.Keeper.UpdateAllianceAsset$1", via: []string{"keeper.Keeper.SetRewardWeightChangeSnapshot"}, props: []string{"C14", "C13"}, what: "every validator is settled and snapshotted"},
-	{fn: "keeper.Keeper.RebalanceBondTokenWeights$1", store: []string{"bondedValidators", "unbondedValidatorShares"}, props: []string{"C10"}, what: "every validator is classified bonded/unbonded"},
+	{fn: "keeper.Keeper.RebalanceBondTokenWeights$1", store: true, props: []string{"C10"}, what: "every validator is classified bonded/unbonded"},
 	{fn: "keeper.Keeper.GetAllianceBondedAmount$1", props: []string{"C11", "C10"}, what: "every delegation of the module is visited"},
 	{fn: "keeper.Keeper.ExportGenesis$1", via: []string{"builtin.append"}, props: []string{"C18"}, what: "every validator info exported"},
 	{fn: "keeper.Keeper.ExportGenesis$2", via: []string{"builtin.append"}, props: []string{"C18"}, what: "every delegation exported"},
@@ -422,10 +423,10 @@ func init() {
 					via = append(via, callsAsInstrs(CallsTo(fn, s.via...))...)
 					for _, b := range fn.Blocks {
 						for _, in := range b.Instrs {
-							if st, ok := in.(*ssa.Store); ok {
-								root, _, _ := fa.addrPath(st.Addr)
-								for _, v := range s.store {
-									if root == "ptr:^"+v {
+							if st, ok := in.(*ssa.Store); ok && s.store {
+								// a store into a captured variable of the enclosing function (other than its error variable)
+								if fv := freeVarRoot(st.Addr); fv != nil {
+									if pt, ok := fv.Type().Underlying().(*types.Pointer); ok && !isErrorType(pt.Elem()) {
 										via = append(via, in)
 									}
 								}
